@@ -423,6 +423,7 @@ func (e *Env) runF1(r *rand.Rand, d *f1data) load {
 	ops := []struct{ op, path string }{
 		{"preload", "SB"}, {"preload", "SB.SC"}, {"preload", "Kids"}, {"preload", "One"},
 		{"joins", "SB"}, {"joins", "SB.SC"}, {"joins", "One"}, {"innerjoins", "SB"}, {"find", "Kids"},
+		{"joinpre", "SB.SC"}, // the first hop by Joins, the second by a nested Preload on the joined records
 	}
 	o := ops[r.Intn(len(ops))]
 	l := load{Fam: "soft", Op: o.op, Path: o.path, Unscoped: r.Intn(3) == 0, Shape: []string{"slice", "ptrslice", "struct"}[r.Intn(3)]}
@@ -513,9 +514,12 @@ func (e *Env) runF1(r *rand.Rand, d *f1data) load {
 			conds = []interface{}{q}
 		}
 		joinConds = conds
-		if o.op == "joins" {
+		switch o.op {
+		case "joins":
 			tx = tx.Joins(o.path, conds...)
-		} else {
+		case "joinpre":
+			tx = tx.Joins("SB").Preload("SB.SC")
+		default:
 			tx = tx.InnerJoins(o.path, conds...)
 		}
 	}
@@ -553,6 +557,8 @@ func (e *Env) runF1(r *rand.Rand, d *f1data) load {
 			}
 		case "joins":
 			q = q.Joins(o.path, joinConds...)
+		case "joinpre":
+			q = q.Joins("SB").Preload("SB.SC")
 		default:
 			q = q.InnerJoins(o.path, joinConds...)
 		}
